@@ -262,6 +262,9 @@ func runECUnit(repair bool) func(u *Unit) {
 		d, p := cfg[0], cfg[1]
 		n := d + p
 		sizes := ecSizesFor(d, u.Tier)
+		if repair && u.Tier != "thorough" {
+			sizes = []int{1, d + 1, 1025, 4099} // the 64 KiB size runs in child processes: thorough tier only for C26
+		}
 		size := sizes[(u.Index/len(ecConfigs))%len(sizes)]
 		if size < 1 {
 			size = 1
